@@ -160,7 +160,7 @@ func (e *explorer) judge(x *Exec, replaying bool) bool {
 	if !replaying {
 		for i := 0; i < 5; i++ {
 			y := Run(choices, e.cfg.MaxSteps, i == 4, e.cfg.Body)
-			if y.Status != x.Status || fmt.Sprint(y.Violations) != fmt.Sprint(x.Violations) || y.seqHash != x.seqHash {
+			if y.Status != x.Status || faultKeys(y.Violations) != faultKeys(x.Violations) || y.seqHash != x.seqHash {
 				EngineError("%s: re-running choices %v gave status %q violations %v (first run: %q %v)", e.cfg.Name, choices, y.Status, y.Violations, x.Status, x.Violations)
 				return true
 			}
@@ -186,6 +186,15 @@ func (e *explorer) judge(x *Exec, replaying bool) bool {
 			replayData{e.cfg.Name, choices}, "%s [%s, %d preemption(s), %d environment deviation(s), %d steps]", f.Msg, e.cfg.Name, p, en, x.steps)
 	}
 	return true
+}
+
+func faultKeys(fs []Fault) string {
+	var k []string
+	for _, f := range fs {
+		k = append(k, f.Key)
+	}
+	sort.Strings(k)
+	return strings.Join(k, ";")
 }
 
 // blockedSites: the functions in which threads were blocked, as a stable deadlock key.
